@@ -44,6 +44,8 @@ PROPS = {
         "native": [
             {"name": "history_free_and_discriminating", "bin": "replay_c13", "crate": "replay", "twice": True, "tiers": ("quick", "thorough"),
              "bound": "200 seeded rounds of unordered collections built by different insertion orders / capacities / hasher states, ownership variants, serialization round trips; pairwise distinctness on fixed universes of framing-trap values; identical digest in two separate processes (seeded SipHash-128)"},
+            {"name": "range_inclusive_exhausted_flag", "bin": "replay_c13", "crate": "replay", "tiers": ("quick", "thorough"), "args": ["--only", "range_inclusive_exhausted"], "thorough_seeds": 1,
+             "bound": "2 directed pairs: a fresh RangeInclusive<u32|i64> vs the same range iterated to exhaustion (unequal values) must hash differently (known finding F5)"},
         ],
         "witness": witness.c13,
         "assumptions": [
